@@ -1239,19 +1239,12 @@ class SharedSpaceOperations:
             # False if name is a child of parent
             return not isinstance(parent._namespace.fresh[name], Impl)
 
-        sub = self._find_name_in_subs(parent, name, skip_self=True)   # start from parent
-        if sub is None:
-            return True
-        elif isinstance(sub, klass):
-            return True
-        else:
-            return False
-
-    def _find_name_in_subs(self, parent, name, skip_self=False):
-        for subspace in self._get_subs(parent, skip_self=skip_self):
-            if name in subspace.namespace:
-                return subspace._namespace.fresh[name]
-        return None
+        # False if name is not an instance of klass in any sub space
+        for subspace in self._get_subs(parent, skip_self=True):
+            if name in subspace.namespace and not isinstance(
+                    subspace._namespace.fresh[name], klass):
+                return False
+        return True
 
     def _get_space_bases(self, space, skip_self=True):
         idx = 1 if skip_self else 0
